@@ -302,6 +302,40 @@ Definition jsr_route_bindings (w : service) (r : route) (p : str) : list (str * 
 End SpecJsr.
 
 (* ------------------------------------------------------------------------- *)
+(* RouterJSR311: when is the compiled expression of a template its structural reading *)
+(* the structural token a compiled expression token stands for *)
+Definition conv (t : tk) : option etok :=
+  match t with
+  | TLit s => Some (ELit s)
+  | TVar _ => Some EVar
+  | TRx _ re => Some (ERx re)
+  | TTail _ => Some EAll
+  | TSuf _ _ => None
+  end.
+
+Definition etok_eqb (a b : etok) : bool :=
+  match a, b with
+  | ELit s, ELit s' => str_eqb s s'
+  | EVar, EVar => true
+  | ERx r, ERx r' => str_eqb r r'
+  | EAll, EAll => true
+  | _, _ => false
+  end.
+
+(* the premise under which the expression compiled from a template is the structural reading of that template:
+   token by token, path_expression.go's classification agrees with the documented forms (a boolean, evaluated on
+   every generated case) *)
+Definition tokens_agree (template : str) : bool :=
+  forallb (fun s => match conv (v_tk (parse_tok false s)) with
+                    | Some e => etok_eqb (fst (etok_of s)) e
+                    | None => false
+                    end)
+          (filter (fun t => negb (str_eqb t [])) (tokenize template)).
+
+Definition jsr_tokens_agree (w : service) (r : route) : bool :=
+  tokens_agree (s_root w) && tokens_agree (r_rel r).
+
+(* ------------------------------------------------------------------------- *)
 (* router-independent wrappers                                                *)
 Section SpecBoth.
 Variable O : oracles.
